@@ -56,11 +56,24 @@ type Desc struct {
 	Shapes   []Shape    `json:"shapes,omitempty"`
 	Parallel bool       `json:"parallel"`     // MarchParallel
 	AddPar   bool       `json:"add_parallel"` // AddFieldParallel
+	AddPar2  bool       `json:"add_parallel2,omitempty"` // AddFieldParallel2
 	Org      [3]int     `json:"org,omitempty"`
 	Dim      [3]int     `json:"dim,omitempty"`
 	Vals     []float64  `json:"vals,omitempty"`
 	Note     string     `json:"note,omitempty"`
+	// Attr: the shapes are registered under this Float1 attribute (a decoy shape sits under the position
+	// attribute of the same fields) and the canvas is marched with MarchOnAttribute(Attr) / ...Parallel
+	Attr string `json:"attr,omitempty"`
+	// Remarch: the canvas is marched twice before the judged call (once at a lower cutoff, once at the same)
+	Remarch bool `json:"remarch,omitempty"`
+	// FieldMarch: the single field is also marched through Field.March / Field.Voxelize
+	FieldMarch bool `json:"field_march,omitempty"`
 }
+
+// the Float1 attribute that is marched (Desc.Attr, default the position attribute)
+var marchAttr = modeling.PositionAttribute
+
+func fieldFn(f marching.Field) sample.Vec3ToFloat { return f.Float1Functions[marchAttr] }
 
 type ipt [3]int
 
@@ -113,6 +126,40 @@ func buildFields(d Desc) []marching.Field {
 		default:
 			fs = append(fs, marching.Line(v3(s.P), v3(s.Q), s.R, s.S))
 		}
+	}
+	switch {
+	case d.Mode == "combine" && len(fs) > 1:
+		fs = []marching.Field{marching.CombineFields(fs...)}
+	case d.Mode == "subtract" && len(fs) == 2:
+		fs = []marching.Field{marching.Subtract(fs[0], fs[1])}
+	case d.Mode == "mirror" && len(fs) == 1:
+		fs = []marching.Field{marching.MirrorAxis(fs[0], marching.Axis(d.Axis))}
+	}
+	if d.Attr != "" && d.Attr != modeling.PositionAttribute && d.Mode != "lattice" {
+		// before the combinators: they have to carry both attributes
+		return buildFieldsAttr(d)
+	}
+	if d.Shift != [3]float64{} {
+		for i := range fs {
+			fs[i] = fs[i].Translate(v3(d.Shift))
+		}
+	}
+	return fs
+}
+
+// the same fields with the shape under Desc.Attr and a decoy (a small ball around the centre of the declared
+// domain) under the position attribute; combinators are applied to the two-attribute fields
+func buildFieldsAttr(d Desc) []marching.Field {
+	plain := d
+	plain.Attr, plain.Mode, plain.Shift = "", "add", [3]float64{}
+	fs := buildFields(plain)
+	for i, f := range fs {
+		c := f.Domain.Center()
+		fn := f.Float1Functions[modeling.PositionAttribute]
+		fs[i] = marching.Field{Domain: f.Domain, Float1Functions: map[string]sample.Vec3ToFloat{
+			d.Attr:                     fn,
+			modeling.PositionAttribute: func(v vector3.Float64) float64 { return v.Distance(c) - 1.7/d.Cpu },
+		}}
 	}
 	switch {
 	case d.Mode == "combine" && len(fs) > 1:
@@ -178,7 +225,7 @@ func sampleGrid(fs []marching.Field, cpu float64) *grid {
 	g := &grid{lo: lo, hi: hi, w: hi[0] - lo[0] + 1, h: hi[1] - lo[1] + 1}
 	g.val = make([]float64, g.w*g.h*(hi[2]-lo[2]+1))
 	for _, f := range fs {
-		fn := f.Float1Functions[modeling.PositionAttribute]
+		fn := fieldFn(f)
 		a, b := bounds(f, cpu)
 		for z := a[2]; z < b[2]; z++ {
 			for y := a[1]; y < b[1]; y++ {
@@ -240,7 +287,7 @@ func sampleAt(fs []marching.Field, cpu float64, p ipt) float64 {
 		if p[0] < a[0] || p[0] >= b[0] || p[1] < a[1] || p[1] >= b[1] || p[2] < a[2] || p[2] >= b[2] {
 			continue
 		}
-		v += f.Float1Functions[modeling.PositionAttribute](vector3.New(float64(p[0]), float64(p[1]), float64(p[2])).DivByConstant(cpu))
+		v += fieldFn(f)(vector3.New(float64(p[0]), float64(p[1]), float64(p[2])).DivByConstant(cpu))
 	}
 	return v
 }
@@ -328,17 +375,37 @@ func runImpl(d Desc, fs []marching.Field) (m modeling.Mesh, crash string) {
 	}()
 	canvas := marching.NewMarchingCanvas(d.Cpu)
 	for _, f := range fs {
-		if d.AddPar {
+		if d.AddPar2 {
+			canvas.AddFieldParallel2(f)
+		} else if d.AddPar {
 			canvas.AddFieldParallel(f)
 		} else {
 			canvas.AddField(f)
 		}
 	}
-	if d.Parallel {
-		m = canvas.MarchParallel(d.Cutoff)
-	} else {
-		m = canvas.March(d.Cutoff)
+	march := func(cutoff float64) modeling.Mesh {
+		switch {
+		case d.Attr != "" && d.Parallel:
+			return canvas.MarchOnAttributeParallel(d.Attr, cutoff)
+		case d.Attr != "":
+			return canvas.MarchOnAttribute(d.Attr, cutoff)
+		case d.Parallel:
+			return canvas.MarchParallel(cutoff)
+		}
+		return canvas.March(cutoff)
 	}
+	if d.Remarch {
+		// marching must not change the canvas: a march at a lower cutoff and one at the same cutoff come first
+		_ = march(d.Cutoff - 0.37/d.Cpu)
+		first := march(d.Cutoff)
+		m = march(d.Cutoff)
+		if first.PrimitiveCount() != m.PrimitiveCount() || first.AttributeLength() != m.AttributeLength() {
+			crash = fmt.Sprintf("second March of the same canvas differs: %d triangles / %d vertices, then %d / %d",
+				first.PrimitiveCount(), first.AttributeLength(), m.PrimitiveCount(), m.AttributeLength())
+		}
+		return
+	}
+	m = march(d.Cutoff)
 	return
 }
 
@@ -346,7 +413,7 @@ func meshData(m modeling.Mesh) ([]vector3.Float64, []int) {
 	if m.PrimitiveCount() == 0 {
 		return nil, nil
 	}
-	pos := m.Float3Attribute(modeling.PositionAttribute)
+	pos := m.Float3Attribute(marchAttr)
 	ps := make([]vector3.Float64, pos.Len())
 	for i := range ps {
 		ps[i] = pos.At(i)
@@ -440,6 +507,9 @@ func signedVolumeCells(ps []vector3.Float64, idx []int, cpu float64) float64 {
 
 func evalCase(d Desc) outcome {
 	out := outcome{Stats: map[string]int{}}
+	if d.Attr != "" {
+		marchAttr = d.Attr
+	}
 	fs := buildFields(d)
 	ulo, uhi := unionBox(fs, d.Cpu)
 	big := (uhi[0]-ulo[0]+1)*(uhi[1]-ulo[1]+1)*(uhi[2]-ulo[2]+1) > maxDensePoints
@@ -452,6 +522,11 @@ func evalCase(d Desc) outcome {
 	}
 	out.Big = big
 	m, crash := runImpl(d, fs)
+	if strings.HasPrefix(crash, "second March") {
+		out.GoFail = crash
+		out.Coq = "CGoOnly"
+		return out
+	}
 	if crash != "" {
 		out.GoFail = "implementation panicked: " + crash
 		out.Coq = "CGoOnly"
@@ -691,13 +766,12 @@ func evalCase(d Desc) outcome {
 		an.vb, an.edges, an.byBucket, an.skip, an.offEdge, an.dupBucket = vb, edges, byBucket, skip, offEdge, dupBucket
 		return an
 	}
-	an := analyse(schemeUnits3)
-	if an.offEdge > 0 || an.dupBucket > 0 {
-		if an2 := analyse(schemeCells4); an2.offEdge == 0 && an2.dupBucket == 0 {
-			an = an2
-			out.Stats["weld-scheme:cells-4-decimals"]++
-		}
-	}
+	// the weld of the code as repaired by 3a3ee8c (cell units, 4 decimals, parameter kept 1e-3 off the corners); the
+	// old scheme (world units, 3 decimals) is no longer accepted as an alternative: a vertex that sits ON a lattice
+	// corner fits the old scheme but not the model
+	an := analyse(schemeCells4)
+	out.Stats["weld-scheme:cells-4-decimals"]++
+	_ = schemeUnits3
 	vb, edges, byBucket, skip, offEdge, dupBucket := an.vb, an.edges, an.byBucket, an.skip, an.offEdge, an.dupBucket
 	fails = append(fails, an.fails...)
 	for k, v := range an.stats {
@@ -745,6 +819,14 @@ func evalCase(d Desc) outcome {
 		}
 	}
 
+	if d.FieldMarch && len(fs) == 1 {
+		fm, st := checkFieldMarch(d, fs[0], dense, g, ps, idx)
+		fails = append(fails, fm...)
+		for k, v := range st {
+			out.Stats[k] += v
+		}
+	}
+
 	// Coq term
 	var sb strings.Builder
 	ecodes := make([]int64, len(edges))
@@ -764,6 +846,150 @@ func evalCase(d Desc) outcome {
 		out.Stats["two-vertices-one-bucket"]++
 	}
 	return out
+}
+
+// ---------------------------------------------------------------- Field.March / Field.Voxelize
+// The second marching path of the package (field.go): no canvas, every cell evaluates the field function at its
+// own eight corners (world units), vertices are not kept off the corners and the weld rounds WORLD positions to 3
+// decimals.  It is judged only where that weld cannot tell on the result: every sample at least 1e-7 away from the
+// cutoff (the corner positions of neighbouring cells differ in the last bit), no two crossing points in one weld
+// bucket and none within 1e-6 of a bucket boundary.  Then: no crash, nothing non-finite, closed, as many triangles
+// and vertices as the canvas gave, every vertex within 1.5e-3 cells of a canvas vertex, positive volume, the
+// interpolated Float1 value at every vertex equal to the cutoff; Voxelize returns exactly the below-cutoff samples.
+func checkFieldMarch(d Desc, f marching.Field, dense, g *grid, ps []vector3.Float64, idx []int) (fails []string, st map[string]int) {
+	st = map[string]int{}
+	if dense == nil || dense.size() > 400000 {
+		st["field-march:skipped-large"]++
+		return
+	}
+	// C09_FM_NOGUARD=1 (exploration only): judge Field.March also where its weld is known to interfere
+	noGuard := os.Getenv("C09_FM_NOGUARD") != ""
+	scale := 0.0
+	inside := 0
+	for _, v := range dense.val {
+		if math.Abs(v-d.Cutoff) < 1e-7 && !noGuard {
+			st["field-march:skipped-sample-on-cutoff"]++
+			return
+		}
+		if v < d.Cutoff {
+			inside++
+		}
+		if a := math.Abs(v); a > scale && a < 1e100 {
+			scale = a
+		}
+	}
+	// crossing points as Field.March computes them (no clamp), their weld buckets in world units
+	seen := map[modeling.VectorInt]bool{}
+	for z := g.lo[2]; z <= g.hi[2]; z++ {
+		for y := g.lo[1]; y <= g.hi[1]; y++ {
+			for x := g.lo[0]; x <= g.hi[0]; x++ {
+				p := ipt{x, y, z}
+				for axis := 0; axis < 3; axis++ {
+					q := p
+					q[axis]++
+					if !g.in(q) || (g.at(p) < d.Cutoff) == (g.at(q) < d.Cutoff) {
+						continue
+					}
+					t := (d.Cutoff - g.at(p)) / (g.at(q) - g.at(p))
+					var c [3]float64
+					for k := 0; k < 3; k++ {
+						c[k] = float64(p[k])
+					}
+					c[axis] += t
+					for k := 0; k < 3; k++ {
+						c[k] /= d.Cpu
+						fr := c[k]*1000 - math.Floor(c[k]*1000)
+						if math.Abs(fr-0.5) < 1e-6 && !noGuard {
+							st["field-march:skipped-crossing-on-bucket-boundary"]++
+							return
+						}
+					}
+					k := modeling.Vector3ToInt(vector3.New(c[0], c[1], c[2]), 3)
+					if seen[k] && !noGuard {
+						st["field-march:skipped-weld-would-merge"]++
+						return
+					}
+					seen[k] = true
+				}
+			}
+		}
+	}
+	var m modeling.Mesh
+	var vox []vector3.Float64
+	crash := ""
+	func() {
+		defer func() {
+			if r := recover(); r != nil {
+				crash = fmt.Sprint(r)
+			}
+		}()
+		m = f.March(marchAttr, d.Cpu, d.Cutoff)
+		vox = f.Voxelize(marchAttr, d.Cpu, d.Cutoff)
+	}()
+	if crash != "" {
+		return []string{"Field.March / Voxelize panicked: " + crash}, st
+	}
+	st["field-march:judged"]++
+	if len(vox) != inside {
+		fails = append(fails, fmt.Sprintf("Field.Voxelize returns %d points, %d lattice samples are below the cutoff", len(vox), inside))
+	}
+	if n := nonFinite(m); n > 0 {
+		fails = append(fails, fmt.Sprintf("Field.March: %d non-finite components in the output attributes", n))
+	}
+	fps, fidx := meshData(m)
+	if len(fidx) != len(idx) || len(fps) != len(ps) {
+		fails = append(fails, fmt.Sprintf("Field.March gives %d triangles / %d vertices, the canvas %d / %d", len(fidx)/3, len(fps), len(idx)/3, len(ps)))
+	}
+	if dup, unm, deg := goClosed(fidx); dup+unm+deg > 0 {
+		fails = append(fails, fmt.Sprintf("Field.March output not closed: %d directed edges used twice, %d without matching reverse, %d degenerate faces (of %d triangles)", dup, unm, deg, len(fidx)/3))
+	}
+	if len(fidx) > 0 {
+		if vol := signedVolumeCells(fps, fidx, d.Cpu); !(vol > 0) {
+			fails = append(fails, fmt.Sprintf("Field.March: enclosed volume %g cells^3 is not positive", vol))
+		}
+	}
+	// vertex sets agree (the canvas keeps its vertices 1e-3 cells off the corners)
+	near := map[modeling.VectorInt][]vector3.Float64{}
+	for _, v := range ps {
+		k := modeling.Vector3ToInt(v.Scale(d.Cpu), 1)
+		near[k] = append(near[k], v)
+	}
+	far := 0
+	for _, v := range fps {
+		k := modeling.Vector3ToInt(v.Scale(d.Cpu), 1)
+		best := math.Inf(1)
+		for dx := -1; dx <= 1; dx++ {
+			for dy := -1; dy <= 1; dy++ {
+				for dz := -1; dz <= 1; dz++ {
+					for _, w := range near[modeling.VectorInt{X: k.X + dx, Y: k.Y + dy, Z: k.Z + dz}] {
+						if dd := v.Distance(w) * d.Cpu; dd < best {
+							best = dd
+						}
+					}
+				}
+			}
+		}
+		if best > 1.5e-3 {
+			far++
+		}
+	}
+	if far > 0 {
+		fails = append(fails, fmt.Sprintf("Field.March: %d of %d vertices are not within 1.5e-3 cells of a vertex of the canvas surface", far, len(fps)))
+	}
+	// the field value interpolated to the vertex is the cutoff
+	if len(fidx) > 0 && m.HasFloat1Attribute(marchAttr) {
+		a := m.Float1Attribute(marchAttr)
+		off := 0
+		for i := 0; i < a.Len(); i++ {
+			if math.Abs(a.At(i)-d.Cutoff) > 1e-9*(1+scale) {
+				off++
+			}
+		}
+		if off > 0 {
+			fails = append(fails, fmt.Sprintf("Field.March: the interpolated field value differs from the cutoff at %d of %d vertices", off, a.Len()))
+		}
+	}
+	return
 }
 
 // ---------------------------------------------------------------- generators
@@ -1314,6 +1540,190 @@ func genHiRes(r *hx.Rng) Desc {
 	return d
 }
 
+// Fields whose samples hit the cutoff exactly on whole planes, with below-cutoff samples on BOTH sides: two sheets of
+// the surface 0.002 cells apart around one plane of lattice points (the vertices next to a sample that equals the
+// cutoff are kept 1e-3 cells off the corner).  Unit boxes with integer world coordinates sharing a face (the face
+// lies on a sample plane at every whole number of cubes per unit; x / cpu is exact there), a block standing on a
+// slab, the shared plane on a storage-block boundary, and lattices with a plane (or part of one) of samples equal
+// to the cutoff between two below-cutoff slabs, at cutoff 0 and below.
+func touchingStream(r *hx.Rng, all bool, seed int) []Desc {
+	out := []Desc{}
+	perm := func(ax int, v [3]float64) [3]float64 {
+		var o [3]float64
+		for k := 0; k < 3; k++ {
+			o[(k+ax)%3] = v[k]
+		}
+		return o
+	}
+	layouts := []string{"side by side", "block on a slab", "partial face", "shared plane on a block boundary"}
+	for li, layout := range layouts {
+		for ci, cpu := range []float64{4, 8, 10, 5} {
+			if !all && (li+ci+seed)%4 != 0 {
+				continue
+			}
+			ax := (li + ci + seed) % 3
+			X, Y, Z := float64(r.Range(-2, 2)), float64(r.Range(-2, 2)), float64(r.Range(-2, 2))
+			var a, b Shape
+			switch layout {
+			case "side by side":
+				a = Shape{Kind: "box", P: perm(ax, [3]float64{X + 0.5, Y + 0.5, Z + 0.5}), Q: [3]float64{1, 1, 1}, S: 1}
+				b = Shape{Kind: "box", P: perm(ax, [3]float64{X + 1.5, Y + 0.5, Z + 0.5}), Q: [3]float64{1, 1, 1}, S: 1}
+			case "block on a slab":
+				a = Shape{Kind: "box", P: perm(ax, [3]float64{X + 0.5, Y + 0.5, Z + 0.5}), Q: [3]float64{1, 1, 1}, S: 1}
+				b = Shape{Kind: "box", P: perm(ax, [3]float64{X - 0.25, Y + 0.5, Z + 0.5}), Q: perm(ax, [3]float64{0.5, 2, 2}), S: 1}
+			case "partial face":
+				a = Shape{Kind: "box", P: perm(ax, [3]float64{X + 0.5, Y + 0.5, Z + 0.5}), Q: [3]float64{1, 1, 1}, S: 1}
+				b = Shape{Kind: "box", P: perm(ax, [3]float64{X + 1.25, Y + 0.75, Z + 0.25}), Q: perm(ax, [3]float64{0.5, 1, 1}), S: 1}
+			default:
+				// the shared plane x = X + 1 is lattice plane 0 / 100 / -100 of the canvas
+				X = hx.Pick(r, []float64{-1, 100/cpu - 1, -100/cpu - 1})
+				a = Shape{Kind: "box", P: perm(ax, [3]float64{X + 0.5, Y + 0.5, Z + 0.5}), Q: [3]float64{1, 1, 1}, S: 1}
+				b = Shape{Kind: "box", P: perm(ax, [3]float64{X + 1.5, Y + 0.5, Z + 0.5}), Q: [3]float64{1, 1, 1}, S: 1}
+			}
+			shapes := []Shape{a, b}
+			if r.Bool() {
+				shapes = []Shape{b, a}
+			}
+			out = append(out, Desc{Cpu: cpu, Mode: "combine", Shapes: shapes, Parallel: r.Chance(1, 3),
+				Note: fmt.Sprintf("boxes touching on a sample plane (%s, normal to axis %d)", layout, ax)})
+		}
+	}
+	// lattices: slab, plane of samples == cutoff (whole or half), slab
+	nl := 2
+	if all {
+		nl = 8
+	}
+	for i := 0; i < nl; i++ {
+		cpu := genCpu(r)
+		d := Desc{Cpu: cpu, Mode: "lattice", Parallel: r.Chance(1, 3), Note: "plane of samples equal to the cutoff between two below-cutoff slabs"}
+		if r.Bool() {
+			d.Cutoff = -0.5
+		}
+		ax := r.Intn(3)
+		for k := 0; k < 3; k++ {
+			d.Dim[k] = r.Range(5, 7)
+			a := genAnchor(r)
+			d.Org[k] = int(math.Floor(a[k])) - d.Dim[k]/2
+		}
+		d.Dim[ax] = 7
+		if i%2 == 1 {
+			// the plane of on-cutoff samples is the first plane of a storage block
+			d.Org[ax] = blockSize*r.Range(-1, 1) - 3
+		}
+		half := r.Bool()
+		d.Vals = make([]float64, d.Dim[0]*d.Dim[1]*d.Dim[2])
+		for z := 0; z < d.Dim[2]; z++ {
+			for y := 0; y < d.Dim[1]; y++ {
+				for x := 0; x < d.Dim[0]; x++ {
+					q := [3]int{x, y, z}
+					border := false
+					for k := 0; k < 3; k++ {
+						border = border || q[k] == 0 || q[k] == d.Dim[k]-1
+					}
+					v := d.Cutoff - 0.25 - r.Float()
+					switch {
+					case border:
+						v = d.Cutoff + 0.25 + r.Float()
+					case q[ax] == 3 && !(half && q[(ax+1)%3] > d.Dim[(ax+1)%3]/2):
+						v = d.Cutoff
+					}
+					d.Vals[x+d.Dim[0]*(y+d.Dim[1]*z)] = v
+				}
+			}
+		}
+		out = append(out, d)
+	}
+	return out
+}
+
+// Extents at powers of two of the weld's discretisation (1e-4 cells): a thin box whose two end faces are EXACTLY
+// 2^k / 10^4 cells apart along one axis (k = 16 .. 22: 6.5536 .. 419.4304 cells; 2^21 = 209.7152 cells spans more
+// than two storage blocks), reaching from negative to positive coordinates; the face positions are chosen so that
+// the crossing points fall on whole weld buckets (no rounding doubt).  Any vertex key that packs or truncates the
+// bucket coordinates maps the two end caps onto each other.
+func pow2Stream(r *hx.Rng, all bool, seed int) []Desc {
+	out := []Desc{}
+	for k := 16; k <= 22; k++ {
+		if !all && k != 21 && k != 16+(seed%5) {
+			continue
+		}
+		if !all && k == 22 {
+			continue
+		}
+		ax := (k + seed) % 3
+		cpu := hx.Pick(r, []float64{4, 5, 8})
+		L := math.Ldexp(1, k) / 1e4 // cells
+		lo := -math.Floor(L/2) - 0.7 // cells: the crossing sits at parameter 0.3 of its grid edge
+		var p, q [3]float64
+		for j := 0; j < 3; j++ {
+			c := float64(interiorCoord(r)) + 0.5
+			p[j], q[j] = c/cpu, 2.6/cpu
+		}
+		p[ax], q[ax] = (lo+L/2)/cpu, L/cpu
+		out = append(out, Desc{Cpu: cpu, Mode: "add", Parallel: r.Chance(1, 3),
+			Shapes: []Shape{{Kind: "box", P: p, Q: q, S: 1}},
+			Note:   fmt.Sprintf("box with end faces exactly 2^%d / 10^4 = %.4f cells apart along axis %d", k, L, ax)})
+	}
+	return out
+}
+
+// The Float1 attribute that is marched is not the position attribute: every field carries the shape under
+// "density" and a decoy ball under the position attribute (two sections of the canvas sharing one block array),
+// marched with MarchOnAttribute / MarchOnAttributeParallel.  `combinators` adds CombineFields / MirrorAxis /
+// Subtract / Translate of such two-attribute fields.
+func attributeStream(r *hx.Rng, all, combinators bool, seed int) []Desc {
+	out := []Desc{}
+	modes := []string{"add", "add2"}
+	if combinators {
+		modes = append(modes, "combine", "mirror", "translate", "subtract")
+	}
+	for mi, mode := range modes {
+		if !all && !combinators && mi != seed%2 {
+			continue
+		}
+		if !all && combinators && mi >= 2 && (mi+seed)%2 != 0 {
+			continue
+		}
+		cpu := hx.Pick(r, []float64{4, 5, 8, 10})
+		var c [3]float64
+		for k := 0; k < 3; k++ {
+			c[k] = float64(interiorCoord(r)) + r.Float()
+		}
+		at := func(dx, dy, dz float64) [3]float64 {
+			return [3]float64{(c[0] + dx) / cpu, (c[1] + dy) / cpu, (c[2] + dz) / cpu}
+		}
+		ball := Shape{Kind: "sphere", P: at(0, 0, 0), R: (3 + r.Float()) / cpu, S: 1}
+		rod := Shape{Kind: "line", P: at(-1, 4, 0), Q: at(6, 5, 2), R: (2 + r.Float()) / cpu, S: 1}
+		d := Desc{Cpu: cpu, Mode: "add", Attr: "density", Parallel: r.Bool(), Shapes: []Shape{ball}}
+		switch mode {
+		case "add2":
+			d.Shapes = []Shape{rod, {Kind: "box", P: at(12, 0, 0), Q: [3]float64{4 / cpu, 3 / cpu, 5 / cpu}, S: 1}}
+		case "combine":
+			d.Mode, d.Shapes = "combine", []Shape{ball, rod}
+		case "mirror":
+			d.Mode, d.Axis = "mirror", r.Intn(3)
+			var p [3]float64
+			for k := 0; k < 3; k++ {
+				p[k] = (float64(r.Range(10, 40)) + r.Float()) / cpu
+			}
+			p[d.Axis] = 1.2 / cpu
+			d.Shapes = []Shape{{Kind: "line", P: p, Q: [3]float64{p[0] + 3/cpu, p[1] + 2/cpu, p[2] + 1/cpu}, R: 2.5 / cpu, S: 1}}
+		case "translate":
+			d.Shift = [3]float64{-3.25, 1.5, 2.125}
+		case "subtract":
+			for k := 0; k < 3; k++ {
+				c[k] = float64(r.Range(-10, 10)) + r.Float()
+			}
+			d.Mode = "subtract"
+			d.Shapes = []Shape{{Kind: "box", P: at(0, 0, 0), Q: [3]float64{7 / cpu, 7 / cpu, 7 / cpu}, S: 1},
+				{Kind: "sphere", P: at(3, 3, 0.2), R: 3 / cpu, S: 1}}
+		}
+		d.Note = "marched on the Float1 attribute `density` (decoy under the position attribute), " + mode
+		out = append(out, d)
+	}
+	return out
+}
+
 // ---------------------------------------------------------------- main
 const maxGridPoints = 30000    // lattice points of the box handed to Coq
 const maxDensePoints = 6000000 // lattice points the harness samples densely
@@ -1402,7 +1812,13 @@ func evalAll(jobs []*job) {
 func record(run *hx.Run, j *job) {
 	d, o, lo, hi := j.d, j.o, j.lo, j.hi
 	c := hx.Case{Kind: j.kind, Desc: d, Coq: o.Coq, Nontriv: o.Nontriv, Key: key(d), GoFail: o.GoFail}
-	if o.Stats["domain-too-small"] > 0 {
+	if d.AddPar2 {
+		c.FailKey = "march:addfieldparallel2-axes-swapped"
+	} else if d.Attr != "" && (d.Mode == "combine" || d.Mode == "mirror" || d.Mode == "subtract") {
+		c.FailKey = "march:multi-attribute-closures"
+	} else if d.Attr != "" {
+		c.FailKey = "march:march-on-attribute-non-position"
+	} else if o.Stats["domain-too-small"] > 0 {
 		// the constructor declared a domain that does not contain the shape: hypothesis of the property not met
 		c.FailKey = "march:constructor-domain-too-small"
 		run.Count("declared-domain-smaller-than-shape")
@@ -1413,7 +1829,7 @@ func record(run *hx.Run, j *job) {
 	}
 	run.Add(c)
 	for k, v := range o.Stats {
-		if strings.HasPrefix(k, "skip:") || strings.HasPrefix(k, "weld-scheme:") || k == "two-vertices-one-bucket" {
+		if strings.HasPrefix(k, "skip:") || strings.HasPrefix(k, "weld-scheme:") || strings.HasPrefix(k, "field-march:") || k == "two-vertices-one-bucket" {
 			run.Dist[k] += v
 		}
 	}
@@ -1424,6 +1840,17 @@ func record(run *hx.Run, j *job) {
 	run.Count("mode:" + d.Mode)
 	if d.Parallel {
 		run.Count("MarchParallel")
+	}
+	if d.AddPar2 {
+		run.Count("AddFieldParallel2")
+	} else if d.AddPar {
+		run.Count("AddFieldParallel")
+	}
+	if d.Attr != "" {
+		run.Count("MarchOnAttribute(non-position)")
+	}
+	if d.Remarch {
+		run.Count("marched-three-times")
 	}
 	if d.Cutoff < 0 {
 		run.Count("cutoff<0")
@@ -1480,7 +1907,7 @@ func main() {
 		return
 	}
 	run := hx.ParseFlags("C09", "Check.C09")
-	hires, pinch, smallDomains := false, false, false
+	hires, pinch, smallDomains, attrStream, attrCombinators, addPar2 := false, false, false, false, false, false
 	for _, a := range flag.Args() {
 		switch a {
 		case "hires":
@@ -1489,6 +1916,12 @@ func main() {
 			pinch = true
 		case "small-domains":
 			smallDomains = true
+		case "attr":
+			attrStream = true
+		case "addpar2":
+			addPar2 = true
+		case "attr-combinators":
+			attrCombinators = true
 		}
 	}
 	jobs := []*job{}
@@ -1541,22 +1974,57 @@ func main() {
 
 	thorough := run.Tier == "thorough"
 	// quick keeps one representative per class, rotating with the seed; thorough runs the full streams
+	// the fields of the block streams are added through AddField and AddFieldParallel alternately (which of the
+	// two a given shape gets rotates with the seed)
 	for i, d := range throughBlockStream(r) {
 		// 0..8: per axis beam, beam, capsule; 9: diagonal capsule (nine blocks)
 		if thorough || (i < 9 && i%3 == (i/3+int(run.Seed))%3) {
+			d.AddPar = (i/3+int(run.Seed))%2 == 0
 			jobs = append(jobs, newJob("through-block", d))
 		}
 	}
 	for i, d := range blockPlaneStream(r) {
 		if thorough || i%2 == int(run.Seed)%2 {
+			d.AddPar = (i/2+int(run.Seed))%2 == 0
 			jobs = append(jobs, newJob("block-plane", d))
 		}
 	}
 	for _, d := range unionStream(r, thorough, int(run.Seed)) {
+		d.FieldMarch = d.Mode == "combine"
 		jobs = append(jobs, newJob("union", d))
 	}
 	for _, d := range constructorStream(r, thorough, smallDomains, int(run.Seed)) {
+		d.FieldMarch = d.Mode != "add" || len(d.Shapes) == 1
 		jobs = append(jobs, newJob("constructor", d))
+	}
+	for _, d := range touchingStream(r, thorough, int(run.Seed)) {
+		jobs = append(jobs, newJob("touching", d))
+	}
+	for i, d := range pow2Stream(r, thorough, int(run.Seed)) {
+		d.AddPar = (i+int(run.Seed))%2 == 1
+		jobs = append(jobs, newJob("pow2-extent", d))
+	}
+	if addPar2 {
+		// AddFieldParallel2 samples function(z, y, x) on the tree without fixes/C09-addfieldparallel2-axes.patch
+		n2 := 3
+		if thorough {
+			n2 = 12
+		}
+		for i := 0; i < n2; i++ {
+			d := genShapes(r)
+			d.AddPar, d.AddPar2 = false, true
+			d.Note = "canvas filled through AddFieldParallel2"
+			jobs = append(jobs, newJob("addfieldparallel2", d))
+		}
+	}
+	if attrStream {
+		// MarchOnAttribute on another attribute than the position panics on the tree without
+		// fixes/C09-march-on-attribute-scale.patch, and CombineFields / MirrorAxis / Subtract of fields with two Float1
+		// attributes mix the attributes up without fixes/C09-multi-attribute-closures.patch: generated once the
+		// findings are listed (checks/c09.py)
+		for _, d := range attributeStream(r, thorough, attrCombinators, int(run.Seed)) {
+			jobs = append(jobs, newJob("attribute", d))
+		}
 	}
 
 	nBig, nFinding := 2, 3
@@ -1566,9 +2034,14 @@ func main() {
 	for i := 0; i < run.N; i++ {
 		switch {
 		case i%4 == 3:
-			jobs = append(jobs, newJob("lattice", genLattice(r, false)))
+			d := genLattice(r, false)
+			d.FieldMarch = true
+			jobs = append(jobs, newJob("lattice", d))
 		default:
-			jobs = append(jobs, newJob("shapes", genShapes(r)))
+			d := genShapes(r)
+			d.FieldMarch = d.Mode == "combine" || len(d.Shapes) == 1
+			d.Remarch = r.Chance(1, 4)
+			jobs = append(jobs, newJob("shapes", d))
 		}
 	}
 	for i := 0; i < nBig; i++ {
